@@ -44,6 +44,10 @@ impl<'a, Store: StorageData> TransactionMut<'a, Store> {
         Self { db: data }
     }
 
+    pub(crate) fn storage_transaction(&self) -> u64 {
+        self.db.storage_transaction()
+    }
+
     pub(crate) fn commit(self) -> Result<(), DbError> {
         self.db.commit()?;
         Ok(())
